@@ -506,8 +506,9 @@ func (e *Engine) parseContractFile(p *packages.Package, f *ast.File, fname strin
 			// atcall Callee: expr over arg0.., self and the caller's variables at the call
 			if cur != nil {
 				name, ex, ok := strings.Cut(rest, ":")
-				if ok && (strings.TrimSpace(name) == "send" || strings.TrimSpace(name) == "recv") {
-					// channel operations are named send:<chan> / recv:<chan>
+				if n := strings.TrimSpace(name); ok && (n == "send" || n == "recv" || n == "trysend" || n == "read") {
+					// channel operations are named send:<chan> / recv:<chan> / trysend:<chan> (an offer in
+					// a select), reads of a local read:<var>
 					ch, ex2, ok2 := strings.Cut(ex, ":")
 					name, ex, ok = name+":"+strings.TrimSpace(ch), ex2, ok2
 				}
